@@ -73,14 +73,15 @@ func newREnv(sec rSecrets, kcMode string) *rEnv {
 		// stored credentials that decode from hex but are not usable bcrypt hashes: nothing verifies against them
 		{Name: "shorthash", Scopes: []string{"s1"}, Authenticator: &config.Authenticator{Type: config.BCRYPT, Options: map[string]string{"hash": hex.EncodeToString(bcryptRaw(sec.Own)[:30])}}},
 		{Name: "crypt6", Scopes: []string{"s1"}, Authenticator: &config.Authenticator{Type: config.BCRYPT, Options: map[string]string{"hash": hex.EncodeToString([]byte("$6$rounds=5000$saltsalt$0123456789abcdefghijklmnopqrstuvwxyzABCDEFGHIJKLMNOPQRSTUVWXYZ./0123456789abcdefghijklmnop"))}}},
+		{Name: strings.Repeat("n", 255), Scopes: []string{"s1"}, Authenticator: bcryptAuthn(sec.Group3)},
 		{Name: "badcost", Scopes: []string{"s1"}, Authenticator: &config.Authenticator{Type: config.BCRYPT, Options: map[string]string{"hash": hex.EncodeToString([]byte("$2a$99$" + string(bcryptRaw(sec.Own)[7:])))}}},
 	}
 	e.cred = map[string]map[string]string{
-		"s1": {"own": sec.Own, "viagroup": sec.Group2, "override": sec.Override, "shared": sec.Shared1},
+		"s1": {"own": sec.Own, "viagroup": sec.Group2, "override": sec.Override, "shared": sec.Shared1, strings.Repeat("n", 255): sec.Group3},
 		"s2": {"elsewhere": sec.Elsewhere, "shared": sec.Shared2},
 	}
 	e.known = map[string]map[string]bool{
-		"s1": {"own": true, "viagroup": true, "noauth": true, "override": true, "shared": true, "badhex": true, "nothash": true, "shorthash": true, "crypt6": true, "badcost": true},
+		"s1": {"own": true, "viagroup": true, "noauth": true, "override": true, "shared": true, "badhex": true, "nothash": true, "shorthash": true, "crypt6": true, "badcost": true, strings.Repeat("n", 255): true},
 		"s2": {"elsewhere": true, "shared": true},
 	}
 	if kcMode != "" {
